@@ -295,8 +295,8 @@ impl<'a> OpSource for PrngSource<'a> {
 }
 
 /// Replays a recorded trace; when the trace is exhausted before the stream
-/// has finished (possible after minimisation) it completes the run in the
-/// plainest way: deliver everything, signal EOF, offer large plain sinks.
+/// has finished (possible after minimisation) it completes the run plainly:
+/// deliver everything, signal EOF, keep offering the last recorded sink.
 pub struct ReplaySource {
     ops: Vec<Op>,
     pos: usize,
@@ -326,7 +326,16 @@ impl OpSource for ReplaySource {
             if self.tail_calls > 4 * v.visible + 64 {
                 return None;
             }
-            Op::Call(Offer::large())
+            // keep offering what the recorded trace offered last (so that a
+            // livelock at a small sink survives minimisation); a trace
+            // without any call gets large plain sinks
+            match self.ops.iter().rev().find_map(|o| if let Op::Call(off) = o { Some(off.clone()) } else { None }) {
+                Some(mut off) => {
+                    off.query = false;
+                    Op::Call(off)
+                }
+                None => Op::Call(Offer::large()),
+            }
         };
         self.rec.push(op.clone());
         Some(op)
